@@ -21,7 +21,8 @@ func ShutdownScenarioPool(t *rapid.T, pool []string) sim.Scenario { return shutd
 
 func shutdownScenario(t *rapid.T, pool []string) sim.Scenario {
 	p := Profile{
-		Limits: []int{1, 2, 32, 32, -1, 0}, PNote: 40, // (a value below 1 means one slot per CPU) PGate: 60, PInvalid: 15, PUnknown: 8, PBatch: 35, MaxBatch: 3, PTopInvalid: 8,
+		// a limit below 1 means one slot per CPU
+		Limits: []int{1, 2, 32, 32, -1, 0}, PNote: 40, PGate: 60, PInvalid: 15, PUnknown: 8, PBatch: 35, MaxBatch: 3, PTopInvalid: 8,
 		PObey: 50, Builtins: true, AllowPush: true,
 	}
 	if pool != nil {
